@@ -43,10 +43,25 @@ type AolModel struct {
 	Topics map[string]*AolTopic // key: owner bytes | 0xff | name  (unambiguous: see tkey)
 	// everDeleted[topickey|writer] is set while a writer has been removed and not re-added
 	Removed map[string]bool
+	// Dangling holds writer entries a genesis installed under an <owner, topic> pair that has
+	// no topic entry (the genesis validation has no referential check): the topic does not
+	// exist, the entries are in the store. Same key as Topics.
+	Dangling map[string]*AolTopic
 }
 
 func NewAolModel() *AolModel {
-	return &AolModel{Topics: map[string]*AolTopic{}, Removed: map[string]bool{}}
+	return &AolModel{Topics: map[string]*AolTopic{}, Removed: map[string]bool{}, Dangling: map[string]*AolTopic{}}
+}
+
+// adopt turns a dangling writer list into the writer list of the topic that now exists.
+func (m *AolModel) adopt(o []byte, name, desc string) *AolTopic {
+	t := &AolTopic{Owner: o, Name: name, Desc: desc, Writers: map[string]*AolWriter{}}
+	if d := m.Dangling[tkey(o, name)]; d != nil {
+		t.Writers = d.Writers
+		delete(m.Dangling, tkey(o, name))
+	}
+	m.Topics[tkey(o, name)] = t
+	return t
 }
 
 func tkey(owner []byte, name string) string {
@@ -66,6 +81,14 @@ func (m *AolModel) Clone() *AolModel {
 	}
 	for k, v := range m.Removed {
 		o.Removed[k] = v
+	}
+	for k, t := range m.Dangling {
+		nt := &AolTopic{Owner: t.Owner, Name: t.Name, Writers: map[string]*AolWriter{}}
+		for wk, wv := range t.Writers {
+			c := *wv
+			nt.Writers[wk] = &c
+		}
+		o.Dangling[k] = nt
 	}
 	return o
 }
@@ -177,7 +200,7 @@ func (w *World) observeAOL(obs *TxObs) error {
 					return vio("C02", "create-topic under owner %s accepted without the owner's signature or delegation", x.OwnerAddress)
 				}
 				if m.Topic(o, x.TopicName) == nil {
-					m.Topics[tkey(o, x.TopicName)] = &AolTopic{Owner: o, Name: x.TopicName, Desc: x.Description, Writers: map[string]*AolWriter{}}
+					m.adopt(o, x.TopicName, x.Description)
 					w.Label("aol topic created")
 				} else {
 					w.Label("aol UNEXPECTED create on existing topic")
@@ -220,7 +243,14 @@ func (w *World) observeAOL(obs *TxObs) error {
 				}
 				t := m.Topic(o, x.TopicName)
 				if t == nil {
-					continue
+					if d := m.Dangling[tkey(o, x.TopicName)]; d != nil && d.Writers[string(wr)] != nil {
+						// the owner removed a writer entry that the genesis left without a topic:
+						// the handler writes the topic entry back, so the topic exists from now on
+						t = m.adopt(o, x.TopicName, "")
+						w.Label("aol dangling writer deleted by owner")
+					} else {
+						continue
+					}
 				}
 				delete(t.Writers, string(wr))
 				m.Removed[tkey(o, x.TopicName)+"|"+string(wr)] = true
@@ -240,6 +270,9 @@ func (w *World) observeAOL(obs *TxObs) error {
 				if w.On("C02") {
 					if !w.Authorised(obs, canon(x.WriterAddress), sdk.MsgTypeURL(x)) {
 						return vio("C02", "add-record naming writer %s accepted without that writer's signature or delegation", x.WriterAddress)
+					}
+					if t == nil && m.Dangling[tkey(o, x.TopicName)] != nil {
+						return vio("C02", "add-record on <%s,%s> accepted although no such topic exists: the topic came into existence through a transaction its owner did not sign", x.OwnerAddress, x.TopicName)
 					}
 					if t == nil || t.Writers[string(wr)] == nil {
 						return vio("C02", "add-record on <%s,%s> by %s accepted although that address is not in the writer list at this moment", x.OwnerAddress, x.TopicName, x.WriterAddress)
@@ -650,8 +683,15 @@ func (m *AolModel) LoadGenesis(cdc codec.JSONCodec, raw []byte) error {
 		o, ok1 := addrBytes(parts[0])
 		wa, ok2 := addrBytes(parts[2])
 		t := m.Topic(o, parts[1])
-		if !ok1 || !ok2 || t == nil {
+		if !ok1 || !ok2 {
 			return fmt.Errorf("bad writer key %q", k)
+		}
+		if t == nil {
+			t = m.Dangling[tkey(o, parts[1])]
+			if t == nil {
+				t = &AolTopic{Owner: o, Name: parts[1], Writers: map[string]*AolWriter{}}
+				m.Dangling[tkey(o, parts[1])] = t
+			}
 		}
 		t.Writers[string(wa)] = &AolWriter{wr.Moniker, wr.Description, wr.NanoTimestamp}
 	}
